@@ -9,7 +9,7 @@ from concurrent.futures import ThreadPoolExecutor
 
 from . import cat_c20 as CAT20
 from . import common as C
-from . import c01, c04
+from . import c01, c04, c06
 from .obsjob import run_obs_job
 from .catjob import lookup
 from .c20_rows import part_b
@@ -33,12 +33,22 @@ def jobs(tier):
             if "wires" in e.tags:
                 js.append(dict(base, name="%s/%s/witness" % (e.name, be), analysis="witness", cfg=dict(cfg)))
                 js.append(dict(base, name="%s/%s/wire" % (e.name, be), analysis="wire", cfg=dict(cfg)))
+                if "trace" in e.tags:
+                    # one circuit (constraints and output wire expression) whatever the input bits are
+                    c1 = dict(cfg, want_ref=False)
+                    js.append(dict(base, name="%s/%s/trace" % (e.name, be), analysis="trace", cfg=c1, cfgs=[c1]))
             else:
                 js.append(dict(base, name="%s/%s" % (e.name, be), analysis="obs", cfg=dict(cfg)))
+    # the constraint-less backend has a parameter set of its own (t, alpha, rounds differ): its permutation and sponge
+    # must be the ones of *that* set
+    for nm in ("perm_ref", "hash_ref_L1"):
+        js.append(dict(entry=nm, backend="nobackend", tier=tier, pid=PID, catalogue="checks.cat_c20", weight=1,
+                       name="%s/nobackend" % nm, analysis="obs", cfg=dict(n=4, r=2, guard=None, bound=None),
+                       skip_tv=True))        # no recorder to compare; a model of chained cubes modulo 10000 does not come back
     # the third field: reference equality of the permutation only (quick)
     if tier == "quick":
         for e in CAT20.build(4, tier):
-            if "ggh" in e.tags:
+            if "ggh" in e.tags and "obs" in e.tags:
                 js.append(dict(entry=e.name, backend=BACKENDS[2], tier=tier, pid=PID, catalogue="checks.cat_c20", weight=1,
                                name="%s/%s" % (e.name, BACKENDS[2]), analysis="obs", cfg=dict(n=4, r=2, guard=None, bound=None)))
         js.append(dict(entry="perm_ref", backend=BACKENDS[2], tier=tier, pid=PID, catalogue="checks.cat_c20", weight=3,
@@ -52,7 +62,7 @@ def run_job(env, spec):
         if ("perm" in spec["entry"] or "hash" in spec["entry"]) and res.get("paths", 0) != 1:
             res["errors"].append("%s: %d paths -- the gadget branches on its input values" % (spec["name"], res.get("paths", 0)))
         return res
-    return dict(witness=c01, wire=c04)[spec["analysis"]].run_job(env, spec)
+    return dict(witness=c01, wire=c04, trace=c06)[spec["analysis"]].run_job(env, spec)
 
 
 def main(argv):
